@@ -201,6 +201,55 @@ Proof.
   - split; [reflexivity|]. intros t z E; discriminate.
 Qed.
 
+(* middleware.ResponseMeta.BoundCutFor / Cut as translated from the source (mutex calls are no-ops there; a
+   result-less pointer-receiver setter is a function to the new receiver).  A sink value represents a model cut
+   when its deadline is the cut's instant (0 for "unbounded") and, for a bounded cut, its key encodes the cut's
+   delegation identity. *)
+Definition meta_rep (kf : zone -> N) (m : T_ResponseMeta) (c : cut) : Prop :=
+  T_responseCut_deadline (T_ResponseMeta_cut m) = ot (cut_time c) /\
+  (forall t z, c = Some (t, z) -> T_responseCut_key (T_ResponseMeta_cut m) = kf z).
+
+Lemma gen_bound_cut_for : forall (kf : zone -> N) m mc d kd,
+  nz (cut_time mc) -> nz (cut_time d) -> meta_rep kf m mc ->
+  (forall t z, d = Some (t, z) -> kd = kf z) ->
+  meta_rep kf (go_ResponseMeta_BoundCutFor m (ot (cut_time d)) kd) (bound_cut mc d).
+Proof.
+  intros kf m [[tm zm]|] [[td zd]|] kd Hm Hd [H1 H2] Hk; unfold go_ResponseMeta_BoundCutFor, meta_rep; cbn in *.
+  - specialize (Hm tm eq_refl). specialize (Hd td eq_refl). rewrite H1.
+    destruct (Z.eqb_spec td 0); [contradiction|]. destruct (Z.eqb_spec tm 0); [contradiction|]. cbn.
+    destruct (td <? tm); cbn.
+    + split; [reflexivity|]. intros t z E; inversion E; subst. eauto.
+    + split; [exact H1|]. intros t z E; inversion E; subst. eauto.
+  - split; [exact H1|]. exact H2.
+  - specialize (Hd td eq_refl). rewrite H1. destruct (Z.eqb_spec td 0); [contradiction|]. cbn.
+    split; [reflexivity|]. intros t z E; inversion E; subst. eauto.
+  - split; [exact H1|]. intros t z E; discriminate.
+Qed.
+
+(* the hypotheses are satisfiable, and ties keep the cut that was there: *)
+Example ex_bound_cut_for : forall wp,
+  let m := mk_T_ResponseMeta (mk_T_responseCut 50 7) wp in
+  T_ResponseMeta_cut (go_ResponseMeta_BoundCutFor m 30 9) = mk_T_responseCut 30 9 /\
+  T_ResponseMeta_cut (go_ResponseMeta_BoundCutFor m 50 9) = mk_T_responseCut 50 7 /\
+  T_ResponseMeta_cut (go_ResponseMeta_BoundCutFor m 0 9) = mk_T_responseCut 50 7 /\
+  meta_rep (fun z => N.of_nat (length z)) m (Some (50, [1;2;3;4;5;6;7]%N)).
+Proof. intro wp. cbn. repeat split. intros t z E. inversion E. reflexivity. Qed.
+
+Lemma gen_meta_cut : forall (kf : zone -> N) m c, meta_rep kf m c ->
+  fst (go_ResponseMeta_Cut m) = ot (cut_time c) /\ (forall t z, c = Some (t, z) -> snd (go_ResponseMeta_Cut m) = kf z).
+Proof. intros kf m c [H1 H2]. unfold go_ResponseMeta_Cut. cbn. split; assumption. Qed.
+
+(* the fold-back of a forked sub-query's cut, exactly as subQueryLineage.inherit and the DNAME leg in
+   Resolver.answer write it - [deadline, key := child.Cut(); parent.BoundCutFor(deadline, key)] - is the cut part
+   of the model's AFold step ([bound_cut] of the two trees' cuts) *)
+Lemma gen_fold_back : forall (kf : zone -> N) p c cp cc,
+  nz (cut_time cp) -> nz (cut_time cc) -> meta_rep kf p cp -> meta_rep kf c cc ->
+  meta_rep kf (go_ResponseMeta_BoundCutFor p (fst (go_ResponseMeta_Cut c)) (snd (go_ResponseMeta_Cut c))) (bound_cut cp cc).
+Proof.
+  intros kf p c cp cc Hp Hc Rp Rc. destruct (gen_meta_cut kf c cc Rc) as [E1 E2]. rewrite E1.
+  apply gen_bound_cut_for; assumption.
+Qed.
+
 (* cache.CacheEntry.remaining as translated from the source is the model's [ae_remaining]: the entry's
    cutUntil is a time.Time whose zero value ("no cut") is the model's [None] *)
 Definition ae_of (e : T_CacheEntry) : aentry :=
